@@ -5,6 +5,8 @@
 //! performed through `noodles_bgzf::verif` (the cfg(noodles_verif) shim). Which enabled thread
 //! runs next is a choice of the explorer (`vmc::Chooser`), bounded by preemptions or delays.
 
+pub mod poll;
+
 use std::{
     any::Any,
     cell::RefCell,
